@@ -6,6 +6,13 @@ HERE = os.path.dirname(os.path.dirname(os.path.abspath(__file__)))
 
 # id -> (category, technique, text, note)
 CLAIMED = {
+ "C12": ("other", "non-commutative normal forms of the accumulated balance against the application convention read from apply_balance; pack/unpack layout agreement of the fit; stage-order provenance (ast)",
+         "Decides for every swatch set and stage sequence: the accumulated scaling/translation equals sequential application of the "
+         "stages under the operand side apply_balance actually uses (convention-relative, all modes); each fit starts at the current "
+         "balance with a packing the objective inverts and applies the candidate on the same side; the staged fit uses the "
+         "pre-balanced swatches; colour correction runs diagonal -> affine/linear -> apply on one object. "
+         "Not decided: recovery of exact maps within optimiser tolerance (Powell's behaviour).",
+         "Trusted: python ast parser; sa/algebra.py NC normal forms; scipy's Powell evaluates x0 first."),
  "C10": ("other", "structural check of the shared correction workflow + interprocedural alias/effect summaries of every correct_array + inactive-flag short-circuit lint (ast, CFG reaching definitions)",
          "Decides for every correction class and input kind: the shared __call__ implements copy vs overwrite for arrays and images and is "
          "not overridden; no correction can write through to a non-overwritten input (a view handed to correct_array AND an effect "
